@@ -381,7 +381,7 @@ def dddmpParseText (s : List Char) : Option DddmpFile :=
 
 /-! ### driver encoding: the bytes of the file in hexadecimal -/
 
-def hexVal (c : Char) : Option Nat :=
+def dmHexVal (c : Char) : Option Nat :=
   if '0' ≤ c && c ≤ '9' then some (c.toNat - 48)
   else if 'a' ≤ c && c ≤ 'f' then some (c.toNat - 87)
   else none
@@ -390,7 +390,7 @@ def hexVal (c : Char) : Option Nat :=
 def unhexAscii : List Char → Option (List Char)
   | [] => some []
   | a :: b :: r =>
-    match hexVal a, hexVal b, unhexAscii r with
+    match dmHexVal a, dmHexVal b, unhexAscii r with
     | some x, some y, some l => if 16 * x + y < 128 then some (Char.ofNat (16 * x + y) :: l) else none
     | _, _, _ => none
   | [_] => none
